@@ -112,6 +112,8 @@ SS_FETCH = {'main': 'src/superscalar.cpp', 'keep': ['DecoderBuffer::fetchNext', 
 
 SS_CREATE_FOR_SLOT = {'main': 'src/superscalar.cpp', 'keep': ['SuperscalarInstruction::createForSlot'], 'opaque_classes': ['MacroOp', 'SuperscalarInstructionInfo', 'DecoderBuffer', 'Blake2Generator'], 'drop_vars': ['SuperscalarInstruction::Null', 'SuperscalarInstruction_Null', '\\bslot_\\w+', 'buffer\\d', 'decodeBuffers?', '\\bNull\\b'], 'pre_rewrites': [{'name': 'generator byte -> stand-in', 'pattern': 'gen\\.getByte\\(\\)', 'repl': 'rxv_gen_u8(&gen)'}, {'name': 'create -> stand-in', 'pattern': '\\bcreate\\(([^;]*), gen\\);', 'repl': 'rxv_create(this, \\1, &gen);'}, {'name': 'IMUL_R info object', 'pattern': '&SuperscalarInstructionInfo::IMUL_R', 'repl': 'rxv_info_IMUL_R'}], 'source_must_match': [{'name': 'slot_3 = {ISUB_R, IXOR_R}', 'pattern': 'slot_3\\[\\]\\s*=\\s*\\{\\s*&SuperscalarInstructionInfo::ISUB_R,\\s*&SuperscalarInstructionInfo::IXOR_R\\s*\\}'}, {'name': 'slot_3L = {ISUB_R, IXOR_R, IMULH_R, ISMULH_R}', 'pattern': 'slot_3L\\[\\]\\s*=\\s*\\{\\s*&SuperscalarInstructionInfo::ISUB_R,\\s*&SuperscalarInstructionInfo::IXOR_R,\\s*&SuperscalarInstructionInfo::IMULH_R,\\s*&SuperscalarInstructionInfo::ISMULH_R\\s*\\}'}, {'name': 'slot_4 = {IROR_C, IADD_RS}', 'pattern': 'slot_4\\[\\]\\s*=\\s*\\{\\s*&SuperscalarInstructionInfo::IROR_C,\\s*&SuperscalarInstructionInfo::IADD_RS\\s*\\}'}, {'name': 'slot_7 = {IXOR_C7, IADD_C7}', 'pattern': 'slot_7\\[\\]\\s*=\\s*\\{\\s*&SuperscalarInstructionInfo::IXOR_C7,\\s*&SuperscalarInstructionInfo::IADD_C7\\s*\\}'}, {'name': 'slot_8 = {IXOR_C8, IADD_C8}', 'pattern': 'slot_8\\[\\]\\s*=\\s*\\{\\s*&SuperscalarInstructionInfo::IXOR_C8,\\s*&SuperscalarInstructionInfo::IADD_C8\\s*\\}'}, {'name': 'slot_9 = {IXOR_C9, IADD_C9}', 'pattern': 'slot_9\\[\\]\\s*=\\s*\\{\\s*&SuperscalarInstructionInfo::IXOR_C9,\\s*&SuperscalarInstructionInfo::IADD_C9\\s*\\}'}, {'name': 'slot_10 = IMUL_RCP', 'pattern': 'slot_10\\s*=\\s*&SuperscalarInstructionInfo::IMUL_RCP'}], 'must_fire': {'recipe rewrite: create -> stand-in': 8, 'recipe rewrite: generator byte -> stand-in': 6}}
 
+SS_SCHEDULE_UOP = {'main': 'src/superscalar.cpp', 'keep': ['scheduleUop'], 'opaque_classes': ['MacroOp', 'SuperscalarInstructionInfo', 'DecoderBuffer', 'Blake2Generator', 'SuperscalarInstruction', 'RegisterInfo'], 'drop_vars': ['SuperscalarInstruction::Null', 'SuperscalarInstruction_Null', '\\bslot_\\w+', 'buffer\\d', 'decodeBuffers?', '\\bNull\\b', 'DecoderBuffer::\\w+', 'trace'], 'global_rewrites': [{'name': '2-D array reference parameter -> array parameter', 'pattern': 'ExecutionPort::type\\(&portBusy\\)\\[CYCLE_MAP_SIZE\\]\\[3\\]', 'repl': 'int portBusy[CYCLE_MAP_SIZE][3]'}, {'name': 'ExecutionPort::type -> int', 'pattern': 'ExecutionPort::type', 'repl': 'int'}, {'name': 'ExecutionPort constants', 'pattern': 'ExecutionPort::(P\\w+|Null)', 'repl': 'ExecutionPort_\\1'}], 'pre_rewrites': [{'name': 'trace output dropped', 'pattern': 'if \\(trace\\) std::cout.*?std::endl;', 'repl': ';'}], 'defines': ['commit=RXV_COMMIT']}
+
 # randomx_init_cache: std::string operations -> the abstract string model of the extractor prelude
 STR_OPS = [{"name": "local std::string -> rxv_string", "pattern": r"\bstd::string (\w+);", "repl": r"rxv_string \1 = { 0, 0, 0 };"},
            {"name": "std::string::assign -> rxv_string_assign", "pattern": r"\b(\w+(?:->\w+)*)\.assign\(", "repl": r"rxv_string_assign(&\1, "},
